@@ -55,6 +55,7 @@ func genRunAt(w *bufio.Writer, rng *rand.Rand, run int, stats map[string]int, sh
 	}
 	dyn := rng.Intn(3) == 0
 	rot := rng.Intn(3) == 0
+	resize := !rot && N >= 3 && rng.Intn(4) == 0 // the validator list shrinks and grows between heights
 	flaky := rng.Intn(2) == 0
 	F := (N - 1) / 3
 	nbyz := 0
@@ -77,6 +78,7 @@ func genRunAt(w *bufio.Writer, rng *rand.Rand, run int, stats map[string]int, sh
 	stats[fmt.Sprintf("N=%d", N)]++
 	stats[fmt.Sprintf("amev=%v", amev >= 0)]++
 	stats[fmt.Sprintf("dyn=%v", dyn)]++
+	stats[fmt.Sprintf("resize=%v", resize)]++
 	stats[fmt.Sprintf("byz=%d", nbyz)]++
 	base := mkVals(N)
 	mon := newMonitor(run)
@@ -94,6 +96,7 @@ func genRunAt(w *bufio.Writer, rng *rand.Rand, run int, stats map[string]int, sh
 		i := i
 		nodes[i] = newNode(i, append([]dbft.PublicKey{}, base...), amev, w, func(n *node) {
 			n.dyn, n.rot, n.flaky, n.base = dyn, rot, flaky, base
+			n.resize = resize
 			n.rng = rand.New(rand.NewSource(s))
 			n.wantTx = map[uint64]bool{}
 			n.wo = i == woNode
